@@ -52,6 +52,30 @@ func Yield(name string) {
 	}
 }
 
+// ---- preemption inside loops ---------------------------------------------------
+//
+// The overlay puts Loop() at the top of every loop body of selected packages
+// (lexer, parser, ast/codec, snippet). With loop preemption off — the default —
+// it costs one atomic load. A harness that wants tasks to be preempted in the
+// middle of such code turns it on for a case: every n-th loop iteration is then
+// a scheduling point.
+var loopEvery, loopCount atomic.Int64
+
+func SetLoopEvery(n int) { loopEvery.Store(int64(n)); loopCount.Store(0) }
+
+func Loop() {
+	n := loopEvery.Load()
+	if n == 0 {
+		return
+	}
+	if loopCount.Add(1)%n != 0 {
+		return
+	}
+	if s := Current(); s != nil {
+		s.Yield("loop")
+	}
+}
+
 // Register is called by the spawner right before a `go` statement the overlay
 // rewrote; the returned function is the first thing the new goroutine calls.
 func Register() func() {
